@@ -213,6 +213,12 @@ class TableInfo(object):
                     if fn.name == '__init__' and fn.cls is not None:
                         ts = ts | self.ctor_table_params(fn)
                     bump({s for s in sources_of(ev.info['arg']) if s in ts}, DATA, ev)
+                elif k == 'render':
+                    # str()/repr()/'%r' % of a table = Table.__repr__ = look() = reads the header and data rows
+                    ts = self.table_sources(fn)
+                    if fn.name == '__init__' and fn.cls is not None:
+                        ts = ts | self.ctor_table_params(fn)
+                    bump({s for s in sources_of(ev.info['arg']) if s in ts}, DATA, ev)
                 elif k == 'next':
                     v = ev.info['iter']
                     lvl = HEADER if iter_state(v) == 'H' else DATA
